@@ -423,6 +423,32 @@ func (x *mctx) nativeMutants() []Mut {
 			m.Sigs[i].Sig = append([]byte("SHA256"), s.Sign(d[:])...)
 			add("sig-prehash-resigned"+sfx, m)
 		}
+		// --- signature bytes reused unchanged from somewhere else (the key entry stays the required signer's)
+		if len(o.Sigs) >= 2 {
+			// another slot's signature bytes of this very transaction
+			m := o.clone()
+			m.Sigs[i].Sig = append([]byte{}, o.Sigs[(i+1)%len(o.Sigs)].Sig...)
+			add("sig-copied-from-other-slot"+sfx, m)
+		}
+		if s := x.signers[i]; s != nil {
+			// the right key's genuine signature, but over another transaction (same content, other memo / fee)
+			other := o.clone()
+			if c.Intn(2, "othertx") == 0 {
+				other.Memo += "-earlier"
+			} else {
+				other.Gas++
+			}
+			m := o.clone()
+			m.Sigs[i].Sig = s.Sign(other.signedBytes())
+			add("sig-of-other-transaction"+sfx, m)
+		}
+		{
+			// a foreign key's genuine signature over this transaction, under the required signer's key entry
+			m := o.clone()
+			f := x.foreign("foreignsig")
+			m.Sigs[i].Sig = f.Sign(o.signedBytes())
+			add("sig-of-foreign-key"+sfx, m)
+		}
 		{
 			m := o.clone()
 			m.Sigs = append(m.Sigs[:i], m.Sigs[i+1:]...)
@@ -496,6 +522,16 @@ func (x *mctx) nativeMutants() []Mut {
 		m2 := o.clone()
 		m2.Sigs[1] = m2.Sigs[0]
 		add("sigs-second-replaced-by-first", m2)
+		// only the signature bytes change places, the key entries stay
+		m3 := o.clone()
+		m3.Sigs[0].Sig, m3.Sigs[1].Sig = m3.Sigs[1].Sig, m3.Sigs[0].Sig
+		add("sigs-bytes-swapped", m3)
+		// every slot carries the first signer's signature bytes
+		m4 := o.clone()
+		for k := 1; k < len(m4.Sigs); k++ {
+			m4.Sigs[k].Sig = append([]byte{}, o.Sigs[0].Sig...)
+		}
+		add("sigs-all-copies-of-first", m4)
 	}
 	// --- encoding only (classification control: same parsed content, not C04's subject)
 	{
@@ -653,6 +689,22 @@ func (x *mctx) olvmMutants() []Mut {
 		m := o.clone()
 		m.Sigs = append(m.Sigs, m.Sigs[0])
 		add("sigs-duplicate#0", m)
+	}
+	{
+		// the sender's genuine signature over another transaction (other value), attached to this one
+		var to *ethcmn.Address
+		if pay.To != nil {
+			t := ethcmn.BytesToAddress(*pay.To)
+			to = &t
+		}
+		v, _ := new(big.Int).SetString(o.Val, 10)
+		otherTx := txgen.OLVM(x.ethKey, txgen.OLVMArgs{ChainID: x.chainID, Nonce: pay.Nonce, To: to, Value: new(big.Int).Add(pay.Amount.Value.V, big.NewInt(1)), Data: pay.Data,
+			Fee: txgen.Fee{Price: v, Cur: o.Cur, Gas: o.Gas}})
+		if po, err := parseTx(otherTx.Bytes); err == nil && len(po.Sigs) == 1 {
+			m := o.clone()
+			m.Sigs[0].Sig = po.Sigs[0].Sig
+			add("sig-of-other-transaction#0", m)
+		}
 	}
 	{
 		// another ethereum key signs the same content, payload still names the original sender
